@@ -12,18 +12,39 @@ import (
 func init() {
 	register(&PropDef{
 		ID: "C13",
-		Rule: "plan = seeded datasets of all value types + every command the live command table marks read (and not write) with generated and mutated argument vectors, failing invocations of write commands, and store/move commands followed by a mutation of the destination (and of the source); oracle: the white-box dump of everything the command must not touch is identical before and after; " +
+		Rule: "plan = seeded datasets of all value types + every command the live command table marks read (and not write) with generated and mutated argument vectors, failing invocations of write commands, and store/move commands followed by a mutation of the destination (and of the source); oracle: the white-box dump of everything the command must not touch is identical before and after; profile readers (1 in 4): 2-3 read-only commands on shared keys (some expired but uncollected) run concurrently, every keyspace step and store-lock acquisition scheduled by the dice - the dataset must be unchanged and the replies those of some serial order; " +
 			"non-trivial = the dataset was non-empty when the command ran; distinct = hash of the (command, argument-class) sequence",
 		Gen:         genC13,
 		Run:         runC13,
 		Real:        []string{"all read handlers (set/sorted-set algebra, range, membership, hash, list, string readers)", "set.Union/Intersection/Subtract, sorted_set.Union/Intersect/Subtract", "keyspace getValues (touches caches only)", "command table categories"},
-		Stub:        []string{"TCP sockets"},
-		Assumptions: []string{"lazy removal of already-expired keys is allowed (no clock advance happens in this profile, so nothing expires)"},
+		Stub:        []string{"TCP sockets", "goroutine scheduler choice (readers profile)"},
+		Assumptions: []string{"lazy removal of already-expired keys is allowed"},
 	})
 }
 
 func genC13(r *Rng, tier string, idx int) *Plan {
 	p := &Plan{Profile: "purity", Knobs: map[string]int64{}, SKnobs: map[string]string{}}
+	if idx%4 == 3 {
+		// concurrent readers: 2-3 read-only commands on shared keys (some of them expired but not yet collected),
+		// every keyspace step and store-lock acquisition scheduled by the dice
+		p.Profile = "readers"
+		g := &GenCfg{Keys: []string{"k1", "k2"}, NowMs: 946684800000, NoClock: true, NoRandom: true}
+		p.Init = g.SeedOps(r, r.Range(2, 7))
+		expireSome(r, p, g.Keys)
+		n := r.Range(2, 3)
+		p.Knobs["clients"] = int64(n)
+		p.Knobs["tcp"] = int64(r.Intn(2))
+		for c := 0; c < n; {
+			a := g.Cmd(r)
+			if sp := specByName[strings.ToUpper(a[0])]; sp == nil || sp.Write || sp.Random || sp.Name == "TTL" || sp.Name == "PTTL" {
+				continue
+			}
+			p.Ops = append(p.Ops, Op{C: c, Args: a})
+			c++
+		}
+		p.Dice = drawDice(r, 64)
+		return p
+	}
 	g := &GenCfg{Keys: []string{"k1", "k2", "k3", "k4"}, NowMs: 946684800000, NoClock: true}
 	p.Init = g.SeedOps(r, r.Range(3, 9))
 	n := r.Range(4, 20)
@@ -50,6 +71,9 @@ func genC13(r *Rng, tier string, idx int) *Plan {
 }
 
 func runC13(t *testing.T, p *Plan) *Outcome {
+	if p.Profile == "readers" {
+		return runConcCore(t, p, "C13")
+	}
 	o := &Outcome{Trivial: true}
 	var classes []string
 	fail := func(sig, detail string) {
